@@ -795,6 +795,7 @@ func Run(r *vk.Run) {
 		m := &meta{Group: "chain", Desc: c.name, Expect: "same", b: &base{Class: c.name, Core: c.core}}
 		d.newCase(m, "chain", nil, false, pi, d.msg(crng))
 		m.c.Pas2 = d.addPass(q)
+		m.c.Prior = i % 5
 		m.qClass = cls[(i+1)%len(cls)].name
 		chains = append(chains, m)
 		if thorough && i%3 == 0 {
@@ -813,6 +814,7 @@ func Run(r *vk.Run) {
 		ml := &meta{Group: "chain", Desc: c.name, Expect: "same", b: &base{Class: c.name, Core: c.core}}
 		d.newCase(ml, "chain", lf, true, pi, d.msg(crng))
 		ml.c.Pas2 = d.addPass(q)
+		ml.c.Prior = (i + 2) % 5
 		ml.qClass = cls[(i+1)%len(cls)].name
 		legacyPriv[ml.c.ID] = priv
 		chains = append(chains, ml)
